@@ -23,6 +23,14 @@ def zoo_all():
         ids += [z["id"], z["id"] + "h"]
     return ids
 
+# the x86-64 assembly backend of ark-ff (feature asm; multiplication and squaring for 2..6 limbs when the no-carry optimisation
+# applies): the harness is built a third time with it and the same traces are judged by the same specification
+ASM_FIELDS = ["bls12_381_fq", "bls12_381_fr", "secp256k1_fq", "secp256k1_fr", "bn384_fq", "ed_on_bls12_381_fr", "fp128_fq", "z2b", "z4a", "z6c", "c25519", "m127"]
+def asm_jobs(seed, n, cfgs, timeout=1200):
+    import platform
+    if platform.machine() != "x86_64" or not all(f in open("/proc/cpuinfo").read() for f in (" adx", " bmi2")): return []
+    ba = build(features=("asm",), target="target-asm")
+    return [(lambda c=c: trace_validate(ba, "field", "Trace_Field", c, seed + 20, n, timeout=timeout, label="B:field:%s:asm:seed%d:n%d" % (c, seed + 20, n))) for c in cfgs]
 def plan_C01(b, tier, seed):
     t = []
     if tier == "quick":
@@ -34,6 +42,7 @@ def plan_C01(b, tier, seed):
         t += [A_field(b, "f13", "conv"), A_field(b, "f251", "conv", "f251h"), A_field(b, "f257", "conv")]
         for c in ["bls12_381_fq", "bls12_381_fr", "mnt4_753_fq", "secp256k1_fq", "fp128_fq"] + ZOO_QUICK:
             t.append(B_field(b, c, seed, 1500))
+        t += asm_jobs(seed, 1500, ASM_FIELDS)
     else:
         primes = [3, 5, 7, 11, 13, 17, 19, 23, 29, 31, 37, 43, 61]
         for p in primes:
@@ -47,6 +56,7 @@ def plan_C01(b, tier, seed):
         for c in SHIPPED_PRIME + zoo_all():
             for s in (seed, seed + 1):
                 t.append(B_field(b, c, s, 12000, timeout=1800))
+        t += asm_jobs(seed, 12000, ASM_FIELDS + ["bls12_381_fq2", "bls12_381_fq12"], 2400)
     return t
 
 def plan_C02(b, tier, seed):
@@ -357,7 +367,7 @@ RULES = {
  "C04": "A: every (k, P) with k in 0..2r+2 and P any point of a toy curve, through mul_bigint (with leading zero limbs), affine mul_bigint, bit streams (with/without leading zeros), scalar-field multiplication, w-NAF w=2..6 with fresh / precomputed / too-short tables, batch_mul for 1,2,31,32,33 scalars and three table sizings. B: boundary scalars (0,1,r-1,r,r+1,2^64-1,2^64N-1,random) on shipped curves, spec computes k.P by its own double-and-add; on the 11 configurations that ship GLV parameters: scalar_decomposition as the relation k = +-k1 +- lambda k2 (mod r) with both halves short, glv_mul_projective / glv_mul_affine on subgroup points vs k.P",
  "C12": "A: all points of toy curves with cofactor 1,2,3,4,6,8 (so mostly outside the subgroup): subgroup test vs r.P = O, clear_cofactor vs h.P, mul_by_cofactor, mul_by_cofactor_inv on the subgroup. B: shipped curves with points from arbitrary coordinates; clear_cofactor vs the standardised effective cofactor (BLS12-381 G1: 1-x, G2: h2(3x^2-3)), endomorphism-based subgroup tests vs the definition; UniformRand of affine and projective points only yields points with r.P = O",
  "C15": "A: BigIntMachine over the limb-boundary alphabet (NL<=2: all limb combinations from {0,1,2,2^31,2^63-1,2^63,2^64-2,2^64-1}; larger NL: one special limb, others 0 or all-ones): all ordered pairs x binary operations, every value x unary operations / shifts {0,1,63,64,65,127,128,64N-1,64N,64N+1,64N+64} / conversions / w-NAF for w in {0,1,2,3,4,5,8,16,20,64}; every transition replayed on ark_ff::BigInt<N> through every API variant. B: seeded boundary-biased programs for N in {1,2,3,4,6,12,13} validated by TLC (relaxed NAF as a relation). non-trivial = register changed or a non-zero/true flag or value returned",
- "C01": "A: every transition of FieldMachine over the listed toy prime fields (all operand tuples x all actions; both the derive-macro and the hand-written trait-default configuration) replayed through every API variant; B: seeded random+boundary programs on shipped fields and the moduli zoo validated by TLC over BigNat, incl. decimal strings (FromStr / Display: numerals of integers below, at and far above p, negative, and the canonical numeral back). non-trivial = result differs from the operands and from 0/1, counted per distinct (operands, event)",
+ "C01": "A: every transition of FieldMachine over the listed toy prime fields (all operand tuples x all actions; both the derive-macro and the hand-written trait-default configuration) replayed through every API variant; B: seeded random+boundary programs on shipped fields and the moduli zoo validated by TLC over BigNat, incl. decimal strings (FromStr / Display: numerals of integers below, at and far above p, negative, and the canonical numeral back); the same traces recorded from a third build with ark-ff's x86-64 assembly backend (feature asm, 2..6 limbs). non-trivial = result differs from the operands and from 0/1, counted per distinct (operands, event)",
  "C02": "A: every transition of FieldMachine over toy towers (all elements, or the <=2-nonzero-coordinate sub-alphabet for towers with >3000 elements); B: seeded programs on the shipped BLS12-381 Fq2/Fq6/Fq12 and MNT6 Fq3 validated against schoolbook tower arithmetic over BigNat; Frobenius checked against x^(p^k); tower-specific operations (mode tower / trace events): norm, conjugation, multiplication by elements of every subfield level through every method the type offers (mul_by_fp, mul_by_fp2, mul_assign_by_fp2, mul_assign_by_basefield ...), the sparse multiplications mul_by_01 / mul_by_1 / mul_by_014 / mul_by_034 of both degree-6 towers and Fp12 against the product with the sparse element, and cyclotomic square / inverse / exponentiation on EVERY element of the cyclotomic subgroup of the small towers (projected elements for the large ones; exponents incl. 2^64-1, 2^64)",
 }
 
